@@ -344,7 +344,7 @@ func (p *c13) RunCase(i int) *core.CaseResult {
 		res := run(prefix)
 		drainRaces("schedule", prefix)
 		return res
-	}, check, 400000)
+	}, check, 150000)
 	// pairs/triples: one preemption less than single-query harnesses (a preemption right after an
 	// access x of one thread, followed by the whole other thread, already exposes every race on x:
 	// no release follows x before the other thread's accesses)
